@@ -449,6 +449,12 @@ async def live_one(acc, clock, kind, mal, must_all, chunking, cid):
             cnt = [sum(1 for r in processed_when_all_bytes_were_in if r == t) for t in tail]
             w["tail_frames_processed"] = cnt
             first = 0 if mal.endswith(b"\x01") else 1
+            import re
+            if first == 1 and re.search(rb"\x0110=\d{3}[^\x01]?$", mal):
+                # ... but a CheckSum field is three digits: when the malformed frame stops right behind them (its closing SOH damaged or
+                # missing) the neighbour's start is known, and the neighbour is processed
+                first = 0
+                acc.add("live_cases_ending_in_a_checksum_field_without_its_soh")
             if first == 0:
                 acc.add("live_cases_where_every_following_frame_must_be_processed")
             if any(c != 1 for c in cnt[first:]):
